@@ -15,6 +15,9 @@ DECIDED = [
     "OFFSET: for all parsed digits, the ISO offset is sign*(3600*hh + 60*mm) with the sign of the '+'/'-' read, the RFC 822 numeric zone gives the same expression with the sign of tz[0], and the instant stored is the calendar conversion minus that offset; UTC conversion (timegm) is used whenever a zone or offset was given (NUM)",
     "FORMAT-TABLE: the strftime patterns are the RFC 822 / ISO 8601 extended / basic, long / date-only ones, each formatting function maps each format constant to the pattern of that format and length and reads the broken-down view its name says; the parser dispatches each format constant to the parser of that format and auto-detection tries ISO 8601 first, then RFC 822",
     "UNITS: the epoch views convert `timestamp` from seconds and `milliseconds` from milliseconds into the unit the accessor's name says; the constructors store the quotient in seconds and the remainder in milliseconds",
+    "FIELD-MAP/rfc822: every digit the RFC 822 state machine consumes is added to a field of the parsed time (found D22, fixed); text the ISO 8601 parser accepted is converted as UTC; the RFC 822 zone digits are decimal",
+    "FORMAT-TABLE/date-only: each parser has an accepting exit before any time-of-day field for the date-only text its family's formatter emits (ISO 8601: yes; RFC 822: known finding D23)",
+    "UNITS/nanos: the nanosecond view's factor and result width cover the property's range to year 9999 (they do not: known finding D24)",
     "ZONES: the UTC designators accepted are z, ut, utc, gmt (case-insensitive) and signed four-digit offsets",
 ]
 NOT_DECIDED = ["the calendar arithmetic itself (delegated to timegm / gmtime_r / strftime of the C library)", "round-trip equality of formatted text", "the RFC 822 state machine's field positions (only its month table, zone handling and memory safety, C04)"]
@@ -153,6 +156,40 @@ def field_map(R, P):
         srcs = sorted({x["f"] for b in a.blocks.values() for el in b.elems for x in a.walk(el) if x["k"] == "member" and x.get("rec") == "aws_date_time"})
         R.check(flds == {fld} and (adds == ([add] if add else [])) and len(sel) == 1 and srcs == ["gmt_time", "local_time"], "FIELD-MAP", "%s:reads-%s" % (name, fld), "%s()" % name,
                 "returns %s%s of the view selected by local_time" % (fld, " + %d" % add if add else ""), "%s returns %s with adjustments %s from %s" % (name, sorted(flds), adds, srcs))
+
+
+def rfc822_digits(R, P):
+    """FIELD-MAP/rfc822: the state machine consumes one character per step; a digit it consumes belongs to a numeric
+    field, so every branch taken because the character is a digit adds it to a field of the parsed time (the sibling
+    branches all do: field = field*10 + (c - '0')) - a digit that only switches the state is lost from its field"""
+    from sa.cfg import edges
+    f = P.fn("s_parse_rfc_822")
+    if not R.require(f is not None, "s_parse_rfc_822 not found"):
+        return
+    R.fn(f)
+    n, bad = 0, []
+    for bid, b in sorted(f.blocks.items()):
+        if b.cond is None:
+            continue
+        cc, neg = RU.cond_call(f, b.cond)
+        if cc is None or cc.get("callee") != "aws_isdigit":
+            continue
+        for succ, cnd, pol in edges(f, bid):
+            if pol is not (not neg):
+                continue
+            n += 1
+            acc = []
+            for el in f.blocks[succ].elems:
+                if el["k"] == "bin" and el["op"] in ("=", "+=") and (f.d(el["a"][0]) or {}).get("k") == "member" and f.d(el["a"][0]).get("rec") == "tm":
+                    lhs = f.show(f.d(el["a"][0]))
+                    rhs = f.show(f.d(el["a"][1])).replace(" ", "")
+                    if rhs in ("((%s*10)+(c-48))" % lhs, "((%s*10)+((int)c-48))" % lhs, "(c-48)", "((int)c-48)"):
+                        acc.append(lhs)
+            if not acc:
+                st_ = [f.show(el)[:50] for el in f.blocks[succ].elems if el["k"] == "bin" and el["op"] == "="]
+                bad.append("line %d: a digit is consumed with only %s" % ((f.d(b.cond) or {}).get("loc", [0])[0], st_))
+    R.check(not bad and n >= 6, "FIELD-MAP", "rfc822:every-digit-consumed-is-accumulated", "%s()" % f.name, "%d digit branches each add the digit to a field of the parsed time" % n,
+            "the RFC 822 state machine drops a digit (%s): `15 Oct 2020 ...` (no week day) is read as day 5, `1 Jan` as day 0" % "; ".join(bad[:2]))
 
 
 class OffHooks(C04.ParserHooks):
@@ -346,6 +383,52 @@ def format_table(R, P):
         R.check(ok, "FORMAT-TABLE", "parse:dispatch", "%s()" % g.name, "ISO formats and auto-detect go to the ISO 8601 parser; RFC 822, and auto-detect after an ISO failure, to the RFC 822 parser")
 
 
+def date_only_accepted(R, P):
+    """FORMAT-TABLE/date-only: every date-only pattern the formatter can emit is text its own parser accepts: the parser of
+    that family has an accepting exit that is reached before any time-of-day field is read.  (Property: `full or
+    date-only ... and parsing the result returns the same instant to the format's resolution`.)"""
+    f = P.fn("s_parse_iso_8601")
+    if R.require(f is not None, "s_parse_iso_8601 not found"):
+        dom = dominators(f)
+        hour = [e for e in f.calls("s_read_n_digits") if argstr(f, e.node, 2).endswith("tm_hour")]
+        day = [e for e in f.calls("s_read_n_digits") if argstr(f, e.node, 2).endswith("tm_mday")]
+        acc = [r for r in f.returns() if r.node["a"] and f.is_const(r.node["a"][0]) == 1 and hour and day and ev_dominates(f, day[0], r, dom) and r not in RU.reach_from(f, hour[0])]
+        R.check(len(acc) >= 1, "FORMAT-TABLE", "date-only-accepted:iso8601", "%s()" % f.name, "the ISO 8601 parser accepts text that ends after the day (before the hour is read)",
+                "the ISO 8601 parser has no accepting exit between the day and the hour: the library's own `%Y-%m-%d` / `%Y%m%d` output is rejected")
+    g = P.fn("s_parse_rfc_822")
+    if R.require(g is not None, "s_parse_rfc_822 not found"):
+        R.fn(g)
+        states = {k: v for k, v in P.enums.items() if k.startswith("ON_")}
+        accepted = set()
+        for r in g.returns():
+            for x in g.walk(r.node, follow_refs=True):
+                if x["k"] == "bin" and x["op"] in ("!=", "==") and g.show(RU.uncast(g, g.d(x["a"][0]))) == "state":
+                    v = g.is_const(x["a"][1])
+                    accepted |= {k for k, kv in states.items() if kv == v}
+        R.require(bool(accepted) and "ON_HOUR" in states, "s_parse_rfc_822: the accepting condition on `state` was not found")
+        early = {k for k in accepted if states[k] <= states.get("ON_HOUR", -1)}
+        R.check(bool(early), "FORMAT-TABLE", "date-only-accepted:rfc822", "%s:%d in %s()" % (FILE, g.returns()[-1].line if g.returns() else 0, g.name), "the RFC 822 parser accepts text that ends after the year (%s)" % sorted(early),
+                "the RFC 822 parser accepts only in state %s (after seconds and zone): the date-only text the library's own formatter emits for RFC 822 (RFC822_SHORT_DATE_FORMAT_STR, `Thu, 15 Oct 2020`) is rejected with AWS_ERROR_INVALID_DATE_STR, with the explicit format and with auto-detection" % sorted(accepted))
+
+
+def nanos_range(R, P):
+    """UNITS/nanos: the nanosecond view can represent every instant of the property's range (to 9999-12-31T23:59:59.999Z)
+    - decided from the conversion factor the code uses and the width of the result type"""
+    f = P.fn("aws_date_time_as_nanos")
+    if not R.require(f is not None, "aws_date_time_as_nanos not found"):
+        return
+    per = P.enums.get("AWS_TIMESTAMP_NANOS")
+    w = f.rettype().get("w")
+    R.require(per is not None and w is not None, "AWS_TIMESTAMP_NANOS / the result width of aws_date_time_as_nanos not found")
+    if per is None or w is None:
+        return
+    last = 253402300799  # 9999-12-31T23:59:59Z
+    limit = (2 ** w - 1) // per
+    import time
+    R.check(last * per + 999 * (per // 1000) < 2 ** w, "UNITS", "as_nanos:representable-through-9999", "%s()" % f.name, "seconds * %d fits the %d-bit result for every instant to 9999" % (per, w),
+            "aws_date_time_as_nanos returns a %d-bit count of 1/%d s: instants after epoch second %d (%s) do not fit; the seconds term saturates at the maximum and the milliseconds term is then added with wrap-around, so the nanosecond view disagrees with the seconds / milliseconds views (year 3000, .500: as_nanos = 499999999)" % (w, per, limit, time.strftime("%Y-%m-%dT%H:%M:%SZ", time.gmtime(limit))))
+
+
 def units(R, P):
     want = {
         "aws_date_time_as_nanos": [("dt->timestamp", "AWS_TIMESTAMP_SECS", "AWS_TIMESTAMP_NANOS"), ("dt->milliseconds", "AWS_TIMESTAMP_MILLIS", "AWS_TIMESTAMP_NANOS")],
@@ -521,16 +604,21 @@ def analyse(ctx, replace=None, only=None):
         return
     month_table(R, P)
     field_map(R, P)
+    rfc822_digits(R, P)
     tm_conventions(R, P)
     fraction_digits(R, P)
     delegation(R, P)
     offsets(R, P)
     format_table(R, P)
+    date_only_accepted(R, P)
+    nanos_range(R, P)
     units(R, P)
     zones(R, P)
 
 
 MUTANTS = [
+    {"name": "iso-date-only-rejected", "file": FILE, "expect": "FORMAT-TABLE", "old": "    /* ISO8601 supports date only with no time portion */\n    if (str.len == 0) {\n        return true;\n    }\n", "new": ""},
+    {"name": "first-day-digit-dropped", "file": FILE, "expect": "FIELD-MAP", "old": "                    state = ON_MONTH_DAY;\n                    parsed_time->tm_mday = parsed_time->tm_mday * 10 + (c - '0');\n", "new": "                    state = ON_MONTH_DAY;\n"},
     {"name": "iso-path-not-utc", "file": FILE, "expect": "OFFSET", "old": "            dt->utc_assumed = true;\n            successfully_parsed = true;\n        }\n    }\n\n    if (fmt == AWS_DATE_FORMAT_RFC822", "new": "            successfully_parsed = true;\n        }\n    }\n\n    if (fmt == AWS_DATE_FORMAT_RFC822"},
     {"name": "zone-digits-base-0", "file": FILE, "expect": "OFFSET", "old": "long hour = strtol(hour_str, NULL, 10);", "new": "long hour = strtol(hour_str, NULL, 0);"},
     {"name": "jun-jul-swapped", "file": FILE, "expect": "MONTH-TABLE", "old": "    if (s_jun == comp_val) {\n        return 5;", "new": "    if (s_jul == comp_val) {\n        return 5;"},
